@@ -39,7 +39,7 @@ TECHNIQUE = "Lean 4 proof (generated formulas + hand model of the array code) + 
 GEN = ["becke", "becke_routes", "hirshfeld", "covradii"]
 LEAN_MODULES = ["GridVerif.Props.C06", "GridVerif.Props.C06.Index", "GridVerif.Props.C06.Radii", "GridVerif.Props.C06.Routes",
                 "GridVerif.Props.C06.Select", "GridVerif.Props.C06.Init", "GridVerif.Props.C06.CallGen", "GridVerif.Props.C06.Hirshfeld",
-                "GridVerif.Props.C06.CovRadii", "GridVerif.Props.C06.Window"]
+                "GridVerif.Props.C06.CovRadii", "GridVerif.Props.C06.Window", "GridVerif.Props.C06.Clauses"]
 THEOREMS = [
     "GridVerif.C06.switch_maps_unit",
     "GridVerif.C06.switch_lt_one",
@@ -103,6 +103,11 @@ THEOREMS = [
     "GridVerif.C06.cov_radii_positive_other",
     "GridVerif.C06.alpha_raw_closed_form",
     "GridVerif.C06.alpha_clip_window",
+    # round 6: clauses that stored seeded changes violated (C06-f early return on all-zero points, C06-i break at an empty sector)
+    "GridVerif.C06.compute_atom_weight_pointwise",
+    "GridVerif.C06.compute_atom_weight_origin",
+    "GridVerif.C06.compute_atom_weight_split",
+    "GridVerif.C06.compute_weights_after_empty_segment",
 ]
 RULE = (
     "correspondence: molecules with 1..13 atoms (1..4 always; one with 40, thorough: 100+), atomic numbers 1..86 incl. "
